@@ -327,6 +327,9 @@ class CustomVJPOuter(nn.Module):
     def bwd(vjp_fn, y_t):
       params_t, *inputs_t = vjp_fn(y_t)
       params_t = jax.tree_util.tree_map(jnp.sign, params_t)
+      # the rule also rewrites the input cotangent, so that it is visible
+      # for modules without parameters too
+      inputs_t = jax.tree_util.tree_map(lambda t: -0.5 * t, inputs_t)
       return (params_t, *inputs_t)
 
     if self.use_custom:
@@ -345,11 +348,13 @@ class CustomVJPOuter(nn.Module):
         'backward rule that takes the sign of the parameter cotangent: the '
         'forward value equals the plain function, jax.grad of the outer apply '
         'w.r.t. params equals sign(plain gradient) and the input gradient is '
-        'the plain one; counters / running statistics updated by the forward '
+        '-0.5 x the plain one (also for parameter-free modules); counters / running statistics updated by the forward '
         'pass are published exactly once while differentiating; non-trivial = child has >=2 parameters')
 def custom_vjp(case, ctx):
   prog, D, seed = case
-  if not L.uses(prog, ('dense', 'param')):
+  if not L.uses(prog, ('dense', 'param')) and seed % 3:
+    # (every third such program stays parameter-free: the module owns no
+    # variable in the differentiated collection)
     prog = dict(prog, ops=list(prog['ops']) + [
         {'op': 'dense', 'name': None, 'attr': 'attr'}])
   spec = L.freeze_json(prog)
@@ -367,7 +372,7 @@ def custom_vjp(case, ctx):
           'original function')
   V = unfreeze(V)
   state_cols = sorted(c for c in V if c != 'params')
-  P, S = {'params': V['params']}, {c: V[c] for c in state_cols}
+  P, S = {'params': V.get('params', {})}, {c: V[c] for c in state_cols}
   def run(m, p, xx):
     # the forward pass may update counters / running statistics
     if state_cols:
@@ -382,7 +387,9 @@ def custom_vjp(case, ctx):
   exp = jax.tree_util.tree_map(jnp.sign, gp_v)
   require(close(gc_v, exp), 'parameter gradient is not the custom backward '
           'rule (sign of the plain gradient)')
-  require(close(gc_x, gp_x), 'input gradient under custom_vjp differs')
+  require(close(gc_x, jax.tree_util.tree_map(lambda t: -0.5 * t, gp_x)),
+          'input gradient under custom_vjp is not the custom backward rule '
+          '(-0.5 x the plain input gradient)')
   if state_cols:
     _, u_fwd = run(m_p, P, x)
     require(close(unfreeze(uc), unfreeze(u_fwd)) and close(
